@@ -265,6 +265,21 @@ func c04Docs(base any, path []any) []refmodel.Doc {
 			n := jsonv.Clone(o).(map[string]any)
 			n[k] = nil
 			add(n, class+"+null("+k+")")
+			// present with the empty value of its type: presence, not truthiness, satisfies "required"
+			z := jsonv.Clone(o).(map[string]any)
+			switch o[k].(type) {
+			case string:
+				z[k] = ""
+			case []any:
+				z[k] = []any{}
+			case map[string]any:
+				continue
+			case bool:
+				z[k] = false
+			default:
+				z[k] = jsonv.MustParse("0")
+			}
+			add(z, class+"+empty("+k+")")
 		}
 	}
 	return out
